@@ -62,3 +62,6 @@ def ensure(verbose=False):
 
 if __name__ == '__main__':
     ensure(verbose=True)
+    # self-tests of the trusted reference components
+    for t in ('test_refninja.py',):
+        subprocess.run([core.PY, os.path.join(core.VERIF, 'vf', 'ref', t)], check=True)
